@@ -393,7 +393,10 @@ impl Pool {
         let tail = hd.stderr_tail.lock().unwrap().clone();
         use std::os::unix::process::ExitStatusExt;
         let sig = status.and_then(|s| s.signal());
-        let what = if tail.contains("overflowed its stack") {
+        let what = if let Some(i) = tail.find("panicked at src/") {
+            // a panic outside the guarded library calls, at a path relative to the harness crate: a harness fault
+            format!("harness-panic:harness/{}", tail[i + 12..].lines().next().unwrap_or("").trim_end_matches(':'))
+        } else if tail.contains("overflowed its stack") {
             "stack-overflow".to_string()
         } else if tail.contains("memory allocation of") {
             "alloc-failure-abort".to_string()
